@@ -11,6 +11,7 @@
 
 #include "ctassert.h"
 #include "elasticarray.h"
+#include "monoclock.h"
 #include "warnp.h"
 
 #include "events.h"
@@ -351,6 +352,18 @@ err0:
 	return (-1);
 }
 
+/* Convert ${tv} to an integer number of ms for poll(2), rounding up. */
+static int
+tv2ms(const struct timeval * tv)
+{
+
+	/* Avoid integer overflow. */
+	if (tv->tv_sec >= INT_MAX / 1000)
+		return (INT_MAX);
+
+	return ((int)(tv->tv_sec * 1000 + (tv->tv_usec + 999) / 1000));
+}
+
 /**
  * events_network_select(tv, interrupt_requested):
  * Check for socket readiness events, waiting up to ${tv} time if there are
@@ -362,6 +375,7 @@ int
 events_network_select(const struct timeval * tv,
     const volatile sig_atomic_t * interrupt_requested)
 {
+	struct timeval tstart, tnow, tleft;
 	int timeout;
 
 	/* Initialize if necessary. */
@@ -374,10 +388,12 @@ events_network_select(const struct timeval * tv,
 	 */
 	if (tv == NULL)
 		timeout = -1;
-	else if (tv->tv_sec >= INT_MAX / 1000)
-		timeout = INT_MAX;
 	else
-		timeout = (int)(tv->tv_sec * 1000 + (tv->tv_usec + 999) / 1000);
+		timeout = tv2ms(tv);
+
+	/* If we might wait, record when we started waiting. */
+	if ((timeout > 0) && monoclock_get(&tstart))
+		goto err0;
 
 	/* We're about to call poll! */
 	events_network_selectstats_select();
@@ -388,6 +404,27 @@ events_network_select(const struct timeval * tv,
 		if (errno == EINTR) {
 			if (*interrupt_requested)
 				break;
+
+			/* Wait for what is left of ${tv}, not for all of it. */
+			if (timeout > 0) {
+				if (monoclock_get(&tnow))
+					goto err0;
+				tleft.tv_sec = tv->tv_sec -
+				    (tnow.tv_sec - tstart.tv_sec);
+				tleft.tv_usec = tv->tv_usec -
+				    (tnow.tv_usec - tstart.tv_usec);
+				if (tleft.tv_usec < 0) {
+					tleft.tv_usec += 1000000;
+					tleft.tv_sec -= 1;
+				} else if (tleft.tv_usec >= 1000000) {
+					tleft.tv_usec -= 1000000;
+					tleft.tv_sec += 1;
+				}
+				if (tleft.tv_sec < 0)
+					timeout = 0;
+				else
+					timeout = tv2ms(&tleft);
+			}
 			continue;
 		}
 
